@@ -77,6 +77,10 @@ type StoreCfg struct {
 	Q      int         `json:"q"`      // quanta per unit weight
 	Mode   string      `json:"mode"`   // every: project all slots after every step; final: only after the last one
 	Proto  int         `json:"proto"`  // 0: ToProto message, 1: EncodeProto bytes unmarshalled
+	// Twin selects a real-vs-real differential verdict instead of the comparison with the prediction:
+	//  "clear": a second execution replaces every Clear by a brand-new store; all slots must agree after every step (C15)
+	//  "reweight": the bins just after Reweight(f) must be f times the bins just before (C16)
+	Twin string `json:"twin,omitempty"`
 }
 
 func (c StoreCfg) sigma(k int) int { return c.Base + k*c.Stride }
@@ -339,8 +343,28 @@ type StoreMismatch struct {
 	Tags   map[string]string
 }
 
+func normObs(o *RealStoreObs) string {
+	fe := append([][2]float64{}, o.ForEach...)
+	sort.Slice(fe, func(i, j int) bool { return fe[i][0] < fe[j][0] })
+	bs := append([][2]float64{}, o.BinsCh...)
+	sort.Slice(bs, func(i, j int) bool { return bs[i][0] < bs[j][0] })
+	return fmt.Sprintf("empty=%v total=%v min=%d/%v max=%d/%v forEach=%v bins=%v kar=%v", o.Empty, o.Total, o.Min, o.MinErr, o.Max, o.MaxErr, fe, bs, o.Kar)
+}
+
+func probeRanks(pred *StoreObs, q int) []float64 {
+	ranks := make([]float64, len(pred.Kar))
+	for i, p := range pred.Kar {
+		ranks[i] = float64(p[0]) / (2 * float64(q))
+	}
+	return ranks
+}
+
 func replayStore(beh []StoreStep, cfg *StoreCfg) (mm *StoreMismatch) {
 	w := newStoreWorld(cfg)
+	var wB *storeWorld
+	if cfg.Twin == "clear" {
+		wB = newStoreWorld(cfg)
+	}
 	step := 0
 	var cur *StoreEvent
 	defer func() {
@@ -352,8 +376,54 @@ func replayStore(beh []StoreStep, cfg *StoreCfg) (mm *StoreMismatch) {
 		step = i + 1
 		cur = &beh[i].Ev
 		tags := storeTags(w, cur, "mismatch") // computed before the event changes the receiver
+		var before map[int]float64
+		if cfg.Twin == "reweight" && cur.Op == "Reweight" {
+			before = map[int]float64{}
+			w.st[cur.S-1].ForEach(func(i int, c float64) bool { before[i] += c; return false })
+		}
 		if p := w.apply(cur); p != "" {
 			return &StoreMismatch{Step: step, What: p, Tags: tags}
+		}
+		switch cfg.Twin {
+		case "clear":
+			if cur.Op == "Clear" {
+				wB.st[cur.S-1] = freshStoreLike(wB.st[cur.S-1])
+			} else {
+				wB.apply(cur)
+			}
+			for s := range w.st {
+				ranks := probeRanks(&beh[i].Pred[s], cfg.Q)
+				if w.st[s].IsEmpty() || wB.st[s].IsEmpty() {
+					ranks = nil
+				}
+				a, b := projectStore(w.st[s], ranks), projectStore(wB.st[s], ranks)
+				if na, nb := normObs(&a), normObs(&b); na != nb {
+					tags["aspect"] = "clear"
+					return &StoreMismatch{Step: step, Slot: s + 1, What: fmt.Sprintf("slot %d (%s): a store reused after Clear answers differently from a brand-new store given the same later history:\nreused: %s\nnew:    %s", s+1, realKindName(w.st[s]), na, nb), Tags: tags}
+				}
+			}
+			continue
+		case "reweight":
+			if cur.Op == "Reweight" {
+				f := float64(cur.Num) / float64(cur.Den)
+				after := map[int]float64{}
+				w.st[cur.S-1].ForEach(func(i int, c float64) bool { after[i] += c; return false })
+				bad := len(after) != len(before)
+				for k, v := range before {
+					if after[k] != v*f {
+						bad = true
+					}
+				}
+				tot := 0.0
+				for _, v := range before {
+					tot += v
+				}
+				if bad || w.st[cur.S-1].TotalCount() != tot*f {
+					tags["aspect"] = "reweight"
+					return &StoreMismatch{Step: step, Slot: cur.S, What: fmt.Sprintf("slot %d (%s): Reweight(%v) turned bins %v (total %v) into %v (total %v)", cur.S, realKindName(w.st[cur.S-1]), f, before, tot, after, w.st[cur.S-1].TotalCount()), Tags: tags}
+				}
+			}
+			continue
 		}
 		if cfg.Mode == "final" && i != len(beh)-1 {
 			continue
@@ -404,6 +474,7 @@ type StoreGen struct {
 	Depth    int
 	Simulate bool
 	Num      int
+	Twin     string // differential verdict (see StoreCfg.Twin)
 }
 
 func (g *StoreGen) module() (name, text, cfg string) {
@@ -490,6 +561,7 @@ var exactRealKinds = []string{"dense", "sparse", "paged"}
 
 // storeConfigsFor enumerates replay configurations for a generation config.
 func storeConfigsFor(g *StoreGen, thorough bool) []StoreCfg {
+	twin := g.Twin
 	hasColl := false
 	nExact := 0
 	for _, k := range g.Kinds {
@@ -521,7 +593,10 @@ func storeConfigsFor(g *StoreGen, thorough bool) []StoreCfg {
 		for _, e := range storeEmbeddings(hasColl, a, thorough) {
 			for _, mode := range []string{"every", "final"} {
 				for pv := 0; pv < 2; pv++ {
-					out = append(out, StoreCfg{Init: g.Kinds, Exact: a, Base: e.Base, Stride: e.Stride, Q: g.Q, Mode: mode, Proto: pv})
+					if twin != "" && mode == "final" {
+						continue
+					}
+					out = append(out, StoreCfg{Init: g.Kinds, Exact: a, Base: e.Base, Stride: e.Stride, Q: g.Q, Mode: mode, Proto: pv, Twin: twin})
 				}
 			}
 		}
